@@ -58,7 +58,7 @@ impl W2Prog {
             "tok_off": self.tok_off,
             "feats": self.feats,
             "site": self.site,
-            "spaces": self.spaces.iter().map(|s| json!([s.off, s.line, s.col, s.after_first_print, s.top_stmt, s.stmt_level])).collect::<Vec<_>>(),
+            "spaces": self.spaces.iter().map(|s| json!([s.off, s.line, s.col, s.after_first_print, s.top_stmt, s.stmt_level, s.next_len])).collect::<Vec<_>>(),
             "n_stmts": self.n_stmts, "top_ids": self.top_ids, "lines": self.lines,
         })
     }
@@ -106,7 +106,7 @@ impl W2Prog {
         let site = j.get("site")?.as_array()?.iter().filter_map(|x| x.as_str().map(str::to_string)).collect();
         let mut spaces = vec![];
         for s in j.get("spaces")?.as_array()? {
-            spaces.push(Space { off: s.get(0)?.as_u64()?, line: s.get(1)?.as_u64()?, col: s.get(2)?.as_u64()?, after_first_print: s.get(3)?.as_bool()?, top_stmt: s.get(4)?.as_u64()? as usize, stmt_level: s.get(5).and_then(J::as_bool).unwrap_or(false) });
+            spaces.push(Space { off: s.get(0)?.as_u64()?, line: s.get(1)?.as_u64()?, col: s.get(2)?.as_u64()?, after_first_print: s.get(3)?.as_bool()?, top_stmt: s.get(4)?.as_u64()? as usize, stmt_level: s.get(5).and_then(J::as_bool).unwrap_or(false), next_len: s.get(6).and_then(J::as_u64).unwrap_or(0) as u32 });
         }
         let mut stdout = vec![];
         for e in &events {
